@@ -58,18 +58,8 @@ impl State {
         res.append(&mut self.newlines);
         res.push(Lex::new(self.pos, token.clone()));
 
-        // TODO streamline application logic for multiline strings
         self.cur_indent = self.line_indent;
-        self.pos = self.pos.offset_pos(token.clone().width());
-        if let Token::Str(_str, _) = &token {
-            self.pos = self
-                .pos
-                .offset_line(_str.lines().count().saturating_sub(1));
-        } else if let Token::DocStr(_str) = &token {
-            self.pos = self
-                .pos
-                .offset_line(_str.lines().count().saturating_sub(1));
-        }
+        self.pos = token.end(self.pos);
 
         res
     }
